@@ -515,6 +515,13 @@ int EGLPNUM_TYPENAME_ILLlib_basis_order (
 	EGLPNUM_TYPENAME_ILLlpdata *qslp = lp->O;
 	int *invmap = 0;
 
+	if (lp->basisid == -1 || lp->baz == NULL)
+	{
+		QSlog("EGLPNUM_TYPENAME_ILLlib_basis_order: no basis");
+		rval = E_GENERAL_ERROR;
+		ILL_CLEANUP;
+	}
+
 	ILL_SAFE_MALLOC (invmap, ncols, int);
 
 	for (j = 0; j < nstruct; j++)
